@@ -105,13 +105,59 @@ func vpTarScenario(t *rapid.T, root string) ([]vpTarEntry, bool) {
 	return es, true
 }
 
+// vpTarDangling builds archives around an entry that is written over an earlier link of the
+// same name: a link placed deep enough that "../.." is the destination itself, a second
+// link whose target passes through the first (lexically inside, really the destination's
+// parent) and names something that does not exist yet, then a file / directory / hard link
+// with the second link's name. Writing through the dangling link creates the target outside.
+func vpTarDangling(t *rapid.T, root string) ([]vpTarEntry, bool) {
+	pick := func(l string, xs ...string) string { return rapid.SampledFrom(xs).Draw(t, l) }
+	deep := pick("deep", "a/b", "c/d", "sub/e", "a")
+	upName := deep + "/" + pick("upName", "up", "x", "t")
+	upTarget := pick("upTarget", "../..", "../../.", "..", "../../..")
+	drop := pick("drop", "drop", "a/drop", "d", "x")
+	leaf := pick("leaf", "planted", "outside/new", "outside/planted", "sibling-new.txt", "dest2")
+	steps := []vpTarEntry{
+		{typ: tar.TypeSymlink, name: upName, link: upTarget, mode: 0777},
+		{typ: tar.TypeSymlink, name: drop, link: func() string {
+			// relative to the directory of drop
+			rel := upName
+			if strings.Contains(drop, "/") {
+				rel = "../" + upName
+			}
+			return rel + "/" + pick("climb", "..", ".", "../..") + "/" + leaf
+		}(), mode: 0777},
+		{typ: rapid.SampledFrom([]byte{tar.TypeReg, tar.TypeReg, tar.TypeReg, tar.TypeDir, tar.TypeFifo}).Draw(t, "over"), name: drop, content: "payload-planted", mode: 0644},
+	}
+	var es []vpTarEntry
+	if rapid.Bool().Draw(t, "explicitDirs") {
+		es = append(es, vpTarEntry{typ: tar.TypeDir, name: deep, mode: 0755})
+	}
+	for i, st := range steps {
+		if rapid.IntRange(0, 11).Draw(t, fmt.Sprintf("drop%d", i)) == 0 {
+			continue
+		}
+		es = append(es, st)
+		if rapid.IntRange(0, 5).Draw(t, fmt.Sprintf("noise%d", i)) == 0 {
+			es = append(es, vpTarEntry{typ: tar.TypeReg, name: pick(fmt.Sprintf("noisename%d", i), "n1", deep+"/n2"), content: "payload-noise", mode: 0600})
+		}
+	}
+	if rapid.IntRange(0, 3).Draw(t, "again") == 0 {
+		es = append(es, steps[2])
+	}
+	return es, true
+}
+
 func pick2(t *rapid.T, l string) byte {
 	return rapid.SampledFrom([]byte{tar.TypeReg, tar.TypeReg, tar.TypeFifo, tar.TypeDir}).Draw(t, l)
 }
 
 func vpTarGen(t *rapid.T, root string) ([]vpTarEntry, bool) {
-	if rapid.IntRange(0, 3).Draw(t, "scenario") == 0 {
+	switch rapid.IntRange(0, 5).Draw(t, "scenario") {
+	case 0:
 		return vpTarScenario(t, root)
+	case 1:
+		return vpTarDangling(t, root)
 	}
 	var es []vpTarEntry
 	var links []string
